@@ -29,6 +29,8 @@ const (
 	numCauses
 )
 
+var reconnNames = []string{"main task", "fg DISCONNECTED handler", "bg DISCONNECTED handler", "a task polling Connected()"}
+
 var causeNames = []string{"Close", "Close-from-several-tasks", "server-EOF", "peer-reset", "context-cancel", "QUIT+server-EOF"}
 
 type lifeCycle struct {
@@ -76,6 +78,7 @@ type lifeW struct {
 	ncycles               int
 	reconn                int // 0 main task, 1 fg DISCONNECTED handler, 2 bg DISCONNECTED handler
 	sampleConnected       bool
+	pollStop              bool
 	tlsFail               bool // the next dial belongs to a Connect whose TLS handshake must fail
 	tlsLinks              int
 	chatty                bool // handlers call read-only API methods (Connected, Me, String, ...)
@@ -134,10 +137,10 @@ func lifeRun(e *Env) {
 	w.nick = "me" + g.Str(lower, 1, 3)
 	if c07 {
 		w.ncycles = 1 + g.W(3, 4, 2, 1) // 1..4
-		w.reconn = g.W(2, 2, 1)
+		w.reconn = g.W(2, 2, 1, 1)
 	} else {
 		w.ncycles = 1 + g.W(5, 3, 1)
-		w.reconn = g.W(3, 1, 1)
+		w.reconn = g.W(3, 1, 1, 1)
 	}
 	w.sampleConnected = g.Pct(70)
 	w.bound = 120 * time.Second
@@ -174,7 +177,7 @@ func lifeRun(e *Env) {
 		cy.midLine = g.Pct(20)
 		if e.Prop == "C06" {
 			cy.dupConnect = g.Pct(35)
-			for k := g.W(5, 3, 1); k > 0; k-- {
+			for k := g.W(5, 3, 1); k > 0 && w.reconn != 3; k-- {
 				cy.failFirst = append(cy.failFirst, g.Intn(4))
 			}
 		}
@@ -233,7 +236,7 @@ func lifeRun(e *Env) {
 	w.c = NewClient(ClientOpts{Nick: w.nick, Ident: "sim", Name: "Sim User", Flood: w.flood, PingFreq: w.pingFreq, Track: w.track, CtxDialer: w.ctxDial})
 	w.install()
 	e.Notef("cycles=%d reconnect-from=%s track=%v flood-protection=%v ping=%v ctx-dialer=%v", w.ncycles,
-		[]string{"main task", "fg DISCONNECTED handler", "bg DISCONNECTED handler"}[w.reconn], w.track, !w.flood, w.pingFreq, w.ctxDial)
+		reconnNames[w.reconn], w.track, !w.flood, w.pingFreq, w.ctxDial)
 	for _, p := range w.plans {
 		c2 := "-"
 		if p.cause2 >= 0 {
@@ -252,12 +255,50 @@ func lifeRun(e *Env) {
 	}
 
 	w.connect()
+	if w.reconn == 3 {
+		// a user task that does not wait for DISCONNECTED: it reconnects as soon
+		// as Connected() reports false, i.e. possibly while the old connection is
+		// still being torn down (Connect then has to wait for the teardown)
+		e.S.Spawn("reconnect-poller", func() {
+			for !w.pollStop {
+				// sleep until something has begun to end the current connection
+				// (harness knowledge, only to keep the polling loop short) ...
+				simrt.Block("reconnect-poller", "a disconnect cause to begin", func() bool {
+					if w.pollStop {
+						return true
+					}
+					n := w.connects
+					return n >= 1 && n < w.ncycles && w.connectsBegun == n && len(w.cycles) >= n && w.causeBegun(w.cycles[n-1])
+				})
+				// ... then poll Connected() as an application would
+				for k := 0; k < 4000 && !w.pollStop; k++ {
+					n := w.connects
+					if n >= 1 && n < w.ncycles && w.connectsBegun == n && !w.c.Connected() {
+						if w.connects == n && w.connectsBegun == n && !w.pollStop {
+							e.S.Count("probe.reconnect-while-teardown-may-be-in-progress")
+							w.connect()
+						}
+						break
+					}
+					switch {
+					case k < 60:
+						simrt.Sleep(time.Duration(e.S.Choose(3)) * time.Millisecond)
+					case k < 200:
+						simrt.Sleep(50 * time.Millisecond)
+					default:
+						simrt.Sleep(time.Second)
+					}
+				}
+			}
+		})
+	}
 	for i := 0; i < w.ncycles; i++ {
 		w.runCycle(i)
 		if e.S.Failed() {
 			return
 		}
 	}
+	w.pollStop = true
 	w.finish()
 }
 
@@ -720,7 +761,7 @@ func (w *lifeW) runCycle(i int) {
 			e.Violation("harness", "connection %d never established", i+1)
 		}
 		e.Violation("no-reconnect", "reconnect %d issued from the %s did not complete within an hour\n%s", i+1,
-			[]string{"main task", "fg DISCONNECTED handler", "bg DISCONNECTED handler"}[w.reconn], e.S.TaskDump())
+			reconnNames[w.reconn], e.S.TaskDump())
 		return
 	}
 	cy := w.cycles[i]
